@@ -16,6 +16,8 @@ Record facts := mkFacts {
   f_dest_hash_from_transferred_file : bool;
   (* the copy is unconditional: never skipped on the word of a (best-effort, possibly stale) side file of the destination *)
   f_transfer_always_copies : bool;
+  (* getCacheEntryPath: the entry directory is <remote storage path>/<key>, the whole key: distinct keys, distinct entries *)
+  f_entry_is_whole_key : bool;
   (* setUpLocalDestination: CleanDir(dest), then the destination is listed and must be empty *)
   f_setup_clean_then_check : bool;
   (* unpackPackageToLocalDestination: plain unzip (archives inside the stored tree stay files) *)
@@ -36,5 +38,5 @@ Definition facts_rehash (F : facts) : bool :=
 (* the facts that are built into the model's micro-step order: the model speaks about the source only if they hold *)
 Definition facts_model_applies (F : facts) : bool :=
   f_mut_fetch_returns_transfer_error F && f_mut_store_returns_transfer_error F &&
-  f_transfer_always_copies F && f_setup_clean_then_check F && f_unzip_plain F &&
+  f_transfer_always_copies F && f_entry_is_whole_key F && f_setup_clean_then_check F && f_unzip_plain F &&
   f_imm_part_base_only F && f_imm_store_order F && f_imm_fetch_newest_first F.
